@@ -77,6 +77,10 @@ def run(ctx):
     for n in range(16 if quick else 60):
         datasets.append(('cf2d_holes', gen.cf2d(rng, ny=rng.randint(2, 3), nx=rng.randint(2, 4), bounds=False,
                                                 holes=rng.choice(['edge', 'random', 'corner']), shoc_simple=(n % 2 == 0), invalid=False)))
+    # a large, mostly dry domain: the cells with geometry have linear indexes above 255 while there are few triangles
+    datasets.append(('mostly_dry', gen.cf2d(rng, ny=18, nx=16, bounds=True, holes='mostly_dry', invalid=False)))
+    if not quick:
+        datasets.append(('mostly_dry', gen.cf2d(rng, ny=130, nx=520, bounds=False, holes='mostly_dry', invalid=False)))
     # cells that spell a shared corner differently: 0.0 in one cell's bounds, -0.0 in its neighbour's (mirrored hemispheres,
     # rounded bounds); the two are the same point and must be one vertex
     for flip in ([0] if quick else [0, 1, 2]):
@@ -165,6 +169,9 @@ def run(ctx):
                 continue
             checks.append((n, ring, got))
         if not checks:
+            continue
+        if len(polys) > 2000:
+            ctx.count('large_dataset:exact python checks only (no model evaluation)')
             continue
         tl = lambda t: '(' + ', '.join(f'({pm.coq_q(x)}, {pm.coq_q(y)})' for x, y in t) + ')'     # noqa: E731
         chk = '[' + '; '.join(f'partition_okb {pm.ring_literal(ring)} [{"; ".join(tl(t) for t in got)}]' for _, ring, got in checks) + ']'
